@@ -50,6 +50,10 @@ if not nosuite:
 # other work is going on; equivalent to `git -C /repo apply` + run + `git -C /repo checkout -- .`
 sh("git -C %s checkout -- ." % wt)
 sh("git -C %s apply %s/patch.diff" % (wt, out))
+meta["patched_tree_verified"] = bool(sh("git -C %s diff --stat" % wt).stdout.strip())
+if not meta["patched_tree_verified"]:
+    print("the patch is not in the worktree; not running the checks")
+    checks = []
 res = {}
 try:
     for c in checks:
